@@ -372,6 +372,7 @@ impl Engine for C01 {
                             env_remove: vec![],
                             timeout: Duration::from_secs(8),
                             stdout_to: None,
+                            stdin_file: None,
                         },
                     );
                     let cr = match cr {
